@@ -57,9 +57,9 @@ class Concretizer:
             self._decls = {d.name() for d in self.model.decls()}
         return self._decls
 
-    def entry(self, typ, name, depth=0):
+    def entry(self, typ, name, depth=0, _ov=True):
         """value on entry of the symbolic input `name` of declared type `typ` under the model"""
-        ov = self.ex.overrides.get(name)
+        ov = self.ex.overrides.get(name) if _ov else None
         if ov is not None:
             typ = ov
         k = typ[0]
@@ -93,7 +93,7 @@ class Concretizer:
             else:
                 i = _ev(self.model, z3.Int(tagname))
                 i = min(max(i, 0), len(alts) - 1)
-            return self.entry(alts[i], name, depth)
+            return self.entry(alts[i], name, depth, _ov=False)
         if k == 'tuple':
             return {'$tuple': [self.entry(t, f'{name}.{i}', depth) for i, t in enumerate(typ[1])]}
         if k == 'obj':
